@@ -1,7 +1,7 @@
 CHECKS = [
     entry("C36", "collector", level="fault_enumeration",
           technique="property-based testing (rapid): generated ingestion histories with Stop injected at generated crash points, real collector in a testing/synctest bubble (goroutine-leak detector)",
-          quick=dict(checks=400, budget_s=50),
+          quick=dict(checks=700, budget_s=70),
           thorough=dict(checks=8000, shards=16, budget_s=540),
           level_text="Shutdown is injected after every kind of generated history prefix; after Stop returns every buffered trace must have been decided, kept ones forwarded, no panic and no goroutine left blocked (the synctest bubble refuses to end otherwise). The upstream double can be slow (virtual per-span delay), so decided traces may still be queued for sending and accepted spans may still wait in a worker queue when Stop is called; buffer and queue contents are read while every goroutine is durably blocked. Fault/crash-point enumeration over generated histories.",
           level_note="Collector-level: transmission is a recording double (real transmission flush is C26); the agent/OpAMP and router shutdown order of cmd/refinery/main.go is not driven here."),
